@@ -228,6 +228,13 @@ def _run_sx_case(case, func, res, tier, seed, known):
                 reproduced = (label in rr["failed"]) or (rr["status"] == "stopped" and bool(rr["failed"]))
                 if reproduced and label not in rr["failed"]:
                     label = rr["failed"][-1]
+                elif not reproduced and rr["status"] == "exception":
+                    # the concrete run of the real code on the counterexample's input fails in
+                    # another way (an exception the harness does not expect): that is a concrete
+                    # failing run all the same and is reported under its own label
+                    reproduced = True
+                    label = f"unexpected-exception:{rr['exc']}"
+                    v["detail"] = (v.get("detail") or "") + f" [concrete replay: {rr.get('detail') or rr['exc']}]"
             v["reproduced"] = reproduced
             v["replay_status"] = rr["status"]
             v["replay_exc"] = rr["exc"]
